@@ -630,6 +630,7 @@ func keyPresence(keys string) string {
 }
 
 func runC06(rep *Report, r *Rng, tier string) {
+	defer killedDuringFlush(rep, "C06")
 	defer func() {
 		for _, big := range []bool{false, true} {
 			for _, sig := range []syscall.Signal{syscall.SIGTERM, syscall.SIGINT} {
@@ -992,6 +993,7 @@ func runC16(rep *Report, r *Rng, tier string) {
 			rep.Count("symlink-clobber-cases")
 		}
 	}
+	concurrentCreators(rep, "C16", 150)
 	// a competitor creates the output path WHILE Flush is running: whenever the path does not exist at a commit point,
 	// another program may create it; Flush must then fail or leave that file intact (the writer must own the path
 	// from the start, O_CREAT|O_EXCL, not check-then-rename)
